@@ -686,7 +686,10 @@ PLANS = {
                      "random) for decode-reencode-decode; all cases count as non-trivial, distinct = different step lists"),
     "C20": Plan("stack", "TraceTransportMon", ["C20"], [("stack", g_stack)],
                 mc=[mc_job("transport_glue", "MC_Transport", {"quick": ["MC_C20_q1.cfg", "MC_C20_q2.cfg"], "thorough": ["MC_C20_q1.cfg", "MC_C20_q2.cfg"]}, ["C20"], strict=False,
-                           cap_q=250, cap_t=5000)],
+                           cap_q=250, cap_t=5000),
+                    # liveness under weak fairness of every endpoint (TLC temporal checking, nothing exported)
+                    mc_job("transport_liveness", "MC_Transport", {"quick": ["MC_C20_live1.cfg"], "thorough": ["MC_C20_live1.cfg", "MC_C20_live.cfg"]}, ["C20"],
+                           export=False, strict=False, timeout_t=5400)],
                 level="model_checking", assumptions=[
                     "TLC (trace monitor) and the observer module spec/TransportObs.tla are the oracle",
                     "loopback UDP sockets; the relay (harness) sees every datagram; time is the duration argument of the transports' update"],
